@@ -237,10 +237,19 @@ def gen_transform(parts, vec_views):
     src, tree = T.load(TR)
     out = []
 
+    def harmless(st):
+        """a bare call (or an `if` around bare calls) none of whose arguments mentions the mesh: warnings, logging, checks"""
+        if isinstance(st, ast.Expr) and isinstance(st.value, ast.Call):
+            return not any(isinstance(n, ast.Name) and n.id in ("mesh", "self") for n in ast.walk(st.value))
+        if isinstance(st, ast.If) and not st.orelse:
+            return all(harmless(x) for x in st.body) and \
+                not any(isinstance(n, ast.Name) and n.id in ("mesh", "self") for n in ast.walk(st.test))
+        return isinstance(st, (ast.Import, ast.ImportFrom))
+
     def fdef(name):
         fn = FD(tree, name, TR)
         parts.append(("transform." + name, T.sha(src, fn)))
-        return fn, T.body_nodoc(fn)
+        return fn, [st for st in T.body_nodoc(fn) if not harmless(st)]
 
     # ---- translate
     fn, b = fdef("translate")
